@@ -32,9 +32,13 @@ def mailbox_programs(tier):
     add('kinds', None, {'c1': [('mk_sender', A, 's'), ('mk_caller', A, 'c'), ('sender_send', 's', 'a1'), ('caller_call', 'c', 'a2'), ('ping', A), ('call', A, 'a3')]})
     add('stop_race', None, {'c1': [('call', A, 'a1'), ('stop', A), ('call', A, 'a2')], 'c2': [('send', A, 'b1')]})
     add('stop_race_bounded', 1, {'c1': [('send', A, 'a1'), ('stop', A), ('send', A, 'a2')], 'c2': [('call', A, 'b1')]})
+    add('await_clone_after_termination', None, {'c1': [('stop', A), ('clone', A, 'a2'), ('await', 'a2'), ('clone', A, 'a3'), ('await', 'a3'), ('stopped', A)]})
     add('halt_and_await', None, {'c1': [('clone', A, 'a2'), ('send', A, 'a1'), ('halt', 'a2')], 'c2': [('await', A)]})
     add('backpressure_bounded2_burst', 2, {'c1': [('send', A, 'a1'), ('send', A, 'a2'), ('send', A, 'a3'), ('send', A, 'a4'), ('send', A, 'a5')]}, 1, K=2)
     add('force_pileup_bounded1', 1, {'c1': [('call', A, 'a1')], 'c2': [('call', A, 'b1')], 'c3': [('call', A, 'd1'), ('stop', A)]}, 1, K=3)
+    # the same families with the capacity left symbolic (n in 0..3, decided by z3 at every comparison)
+    add('fifo_mixed_sym', 'sym', {'c1': [('send', A, 'a1'), ('call', A, 'a2')], 'c2': [('send', A, 'b1')]}, 1)
+    add('stop_race_sym', 'sym', {'c1': [('send', A, 'a1'), ('stop', A), ('send', A, 'a2')], 'c2': [('call', A, 'b1')]})
     add('backpressure_sym', 'sym', {'c1': [('send', A, 'a1')], 'c2': [('send', A, 'b1')]}, 1)
     add('backpressure_sym3', 'sym', {'c1': [('send', A, 'a1'), ('send', A, 'a2')], 'c2': [('send', A, 'b1')]}, 1, 't')
     add('backpressure_weak', 1, {'c1': [('mk_weak_sender', A, 'ws'), ('weak_send', 'ws', 'a1'), ('weak_send', 'ws', 'a2')], 'c2': [('call', A, 'b1')]}, 1, 't')
@@ -111,6 +115,7 @@ def mailbox_programs(tier):
     add('broker_two_pubs', None, {'pub': [('ping', 's1'), ('publish', 'p1'), ('publish', 'p2')]}, broker=dict(nactors=2, subscribers=(1,)), K=1, max_steps=80)
     add('broker_two_subscribers_two_publishers', None, {'pa': [('ping', 's1'), ('ping', 's2'), ('publish', 'p1')], 'pb': [('ping', 's1'), ('ping', 's2'), ('publish', 'p2')]}, broker=dict(nactors=2, subscribers=(1, 2)), K=1, max_steps=90, tag='t')
     add('broker_two_subscribers_one_publisher', None, {'pa': [('ping', 's1'), ('ping', 's2'), ('publish', 'p1'), ('publish', 'p2')]}, broker=dict(nactors=2, subscribers=(1, 2)), K=1, max_steps=90)
+    add('broker_subscriber_dropped', None, {'pub': [('ping', 's1'), ('ping', 's2'), ('downgrade', 's1', 'w1'), ('drop', 's1'), ('publish', 'p1'), ('upgrade', 'w1'), ('publish', 'p2')]}, broker=dict(nactors=2, subscribers=(1, 2)), K=1, max_steps=90)
     add('broker_dead_subscriber', None, {'pub': [('ping', 's1'), ('ping', 's2'), ('stop', 's1'), ('ping', 's1'), ('publish', 'p1'), ('publish', 'p2')]}, broker=dict(nactors=2, subscribers=(1, 2)), K=1, max_steps=90)
     add('broker_unsubscribe_resubscribe', None, {'pub': [('ping', 's1'), ('get_broker', 'b'), ('addr_subscribe', 'b', 's1'), ('addr_publish', 'b', 'p1'), ('unsubscribe', 'b', 's1'), ('addr_publish', 'b', 'p2')]}, broker=dict(nactors=2, subscribers=(1,)), K=1, max_steps=90)
     add('broker_ctx_publish_mt', None, {'pub': [('ping', 's1'), ('send', 's2', 'ctxpub:1')], 'other': [('get_broker', 'b')]}, broker=dict(nactors=2, subscribers=(1,)), K=2, max_steps=90, mt=True)
@@ -138,6 +143,22 @@ def evaluate(tr, status, cap, scripts, spec=None):
     if spec is not None and spec.get('broker'):
         out['C09'] += oracle_broker(tr, status, dict(spec['broker'], scripts=scripts))
         out['C02'] += oracle_resolves(tr, status, scripts)
+        # the broker never keeps a subscriber alive: once the script dropped a subscriber's only strong handle, weak
+        # handles to it no longer upgrade and it terminates (C05 / C09)
+        from prog_mailbox import _ops
+        weak_of = {}
+        dropped = {}
+        for o in _ops(tr):
+            sc = scripts[o['client']][o['pc']]
+            if o['kind'] == 'downgrade':
+                weak_of[sc[2]] = sc[1]
+            elif o['kind'] == 'drop' and o['end'] is not None:
+                dropped[sc[1]] = o['end']
+            elif o['kind'] == 'upgrade' and o['end'] is not None and weak_of.get(sc[1]) in dropped and o['begin'] > dropped[weak_of[sc[1]]]:
+                if str(o['result']).startswith('Some'):
+                    m = f"a weak handle to subscriber {weak_of[sc[1]]} upgraded after its last strong handle had been dropped (something keeps it alive)"
+                    out['C05'].append(m)
+                    out['C09'].append(m)
         return out
     if spec is not None and spec.get('children'):
         out['C16'] += oracle_children(tr, status, spec)
@@ -282,8 +303,13 @@ def run(functions, enums, repo, tier, max_steps=60, seed=0, validate=None):
             # an unsupported construct met in one program makes the run inconclusive but does not hide what the
             # schedules explored so far (and the other programs) show
             try:
+                t_prog = time.time()
+                budget = 900 if tier == 'quick' else 3600
                 st0 = p.setup()
-                yield from p.explore(st0)
+                for lf in p.explore(st0):
+                    yield lf
+                    if time.time() - t_prog > budget:
+                        raise Unsupported(f"time budget of the program exhausted ({budget} s): a change made its schedule space explode")
             except Unsupported as ex:
                 stats.setdefault('unsupported', []).append(f"{name}: {ex}")
         for leaf in leaves():
